@@ -124,7 +124,7 @@ def bounded(ctx):
                 vec, mods = build(ctx, ns, rng, nrefs, shared, dup_refs)
                 inputs = [vec] + mods
                 cfg = "refs=%d shared=%s equal-entries=%s" % (nrefs, shared, dup_refs)
-                before = [[list(f.qualifiers.get("citation", [])) for f in x.record.features] for x in inputs]
+                before = [[[repr(c) for c in f.qualifiers.get("citation", [])] for f in x.record.features] for x in inputs]
                 src_refs = {}
                 for x in inputs:
                     refs = x.record.annotations.get("references", [])
@@ -166,7 +166,7 @@ def bounded(ctx):
                         viol.append(dict(name="once_%s" % cfg, what="%s: product reference list repeats a reference: %r" % (cfg, titles), case=dict(cfg=cfg)))
                     if set(titles) != cited:
                         viol.append(dict(name="exact_%s" % cfg, what="%s: product reference list %r, cited references %r" % (cfg, titles, sorted(cited)), case=dict(cfg=cfg)))
-                    after = [[list(f.qualifiers.get("citation", [])) for f in x.record.features] for x in inputs]
+                    after = [[[repr(c) for c in f.qualifiers.get("citation", [])] for f in x.record.features] for x in inputs]
                     if after != before:
                         viol.append(dict(name="inputs_%s" % cfg, what="%s: citation indices of the inputs changed: %r -> %r" % (cfg, before, after), case=dict(cfg=cfg)))
                     if call == 0:
